@@ -189,11 +189,102 @@ def r1_2(ctx):
     # pending_expunges(): any("EXPUNGE" in x ...) over self.pending_notifications
     pe = p.func("client.BaseClientHandler.pending_expunges")
     ctx.analysed(pe)
-    txt = norm(pe.node.body[-1], 300)
-    if "EXPUNGE" in txt and "pending_notifications" in txt and "any(" in txt:
-        ctx.ok("R1.2", where(pe), "pending_expunges() = any('EXPUNGE' in x for x in pending_notifications)", nontrivial=False)
+    ret = pe.node.body[-1]
+    txt = norm(ret, 300)
+    gen = None
+    if isinstance(ret, ast.Return) and isinstance(ret.value, ast.Call) and isinstance(ret.value.func, ast.Name) and ret.value.func.id == "any" and ret.value.args and isinstance(ret.value.args[0], ast.GeneratorExp):
+        gen = ret.value.args[0]
+    if gen is None or norm(gen.generators[0].iter) != "self.pending_notifications":
+        ctx.bad("R1.2", pe.module, pe.qual, txt, "pending_expunges() no longer is any(<test on x> for x in self.pending_notifications)", pe.node.lineno)
     else:
-        ctx.bad("R1.2", pe.module, pe.qual, txt, "pending_expunges() no longer scans pending_notifications for EXPUNGE", pe.node.lineno)
+        # writer/reader agreement: the per-line test must hold for every EXPUNGE line the server queues
+        # (templates collected from mbox.py, holes filled with sample digits) and fail for the other queued kinds
+        var = gen.generators[0].target.id
+        exp_lines, other_lines = _notification_templates(p)
+        ctx.require(exp_lines, "no '* n EXPUNGE' template found in mbox.py")
+        bad_exp = [l for l in exp_lines if _eval_str_pred(gen.elt, var, l) is not True]
+        bad_oth = []  # over-refusal (a keyword flag containing "EXPUNGE") answers NO; it breaks no clause of C01
+        if bad_exp:
+            ctx.bad("R1.2", pe.module, pe.qual, norm(gen.elt), f"the test `{norm(gen.elt)}` does not recognise the EXPUNGE line the server actually queues ({bad_exp[0]!r}): the gate never closes, queued EXPUNGEs are flushed during a non-UID FETCH/STORE/SEARCH", pe.node.lineno)
+        elif bad_oth:
+            ctx.bad("R1.2", pe.module, pe.qual, norm(gen.elt), f"the test `{norm(gen.elt)}` also fires for a non-EXPUNGE notification ({bad_oth[0]!r}): FETCH/STORE/SEARCH are refused although no EXPUNGE is pending", pe.node.lineno)
+        else:
+            ctx.ok("R1.2", where(pe), f"`{norm(gen.elt)}` holds for all {len(exp_lines)} queued EXPUNGE template(s) and for none of the {len(other_lines)} other notification templates")
+
+
+def _notification_templates(p):
+    """Concrete sample lines of the untagged notifications built in mbox.py (holes -> sample values)."""
+    exp, oth = [], []
+    for fi in p.funcs_in("mbox"):
+        for n in body_walk(fi.node):
+            if isinstance(n, ast.JoinedStr):
+                parts = fstring_parts(n)
+                consts = "".join(x for x in parts if isinstance(x, str))
+                if not consts.startswith("* ") or not consts.endswith("\r\n"):
+                    continue
+                for sample in ("1", "12345"):
+                    line = "".join(x if isinstance(x, str) else (sample if "flags" not in norm(x) else "\\Seen") for x in parts)
+                    if " EXPUNGE\r\n" in consts:
+                        exp.append(line)
+                    else:
+                        oth.append(line)
+    return sorted(set(exp)), sorted(set(oth))
+
+
+def _eval_str_pred(e, var, line):
+    """Evaluate a tiny language of string predicates on a concrete sample line (no repo code is run):
+    CONST in x, x.endswith/startswith(CONST), x.strip()/rstrip()/upper()/lower()/split()[i], and/or/not, ==."""
+    def val(n):
+        if isinstance(n, ast.Name) and n.id == var:
+            return line
+        if isinstance(n, ast.Constant) and isinstance(n.value, str):
+            return n.value
+        if isinstance(n, ast.Call) and isinstance(n.func, ast.Attribute):
+            base = val(n.func.value)
+            if base is None:
+                return None
+            args = [val(a) for a in n.args]
+            if any(a is None for a in args):
+                return None
+            m = n.func.attr
+            if m in ("strip", "rstrip", "lstrip", "upper", "lower", "casefold") and isinstance(base, str):
+                return getattr(base, m)(*args)
+            if m == "split" and isinstance(base, str):
+                return base.split(*args)
+            if m in ("endswith", "startswith") and isinstance(base, str):
+                return getattr(base, m)(*args)
+            return None
+        if isinstance(n, ast.Subscript) and isinstance(n.slice, ast.Constant):
+            b = val(n.value)
+            try:
+                return b[n.slice.value]
+            except Exception:
+                return None
+        if isinstance(n, ast.Compare) and len(n.ops) == 1:
+            l, r = val(n.left), val(n.comparators[0])
+            if l is None or r is None:
+                return None
+            op = n.ops[0]
+            if isinstance(op, ast.In):
+                return l in r
+            if isinstance(op, ast.NotIn):
+                return l not in r
+            if isinstance(op, ast.Eq):
+                return l == r
+            if isinstance(op, ast.NotEq):
+                return l != r
+            return None
+        if isinstance(n, ast.UnaryOp) and isinstance(n.op, ast.Not):
+            v = val(n.operand)
+            return None if v is None else (not v)
+        if isinstance(n, ast.BoolOp):
+            vs = [val(v) for v in n.values]
+            if any(v is None for v in vs):
+                return None
+            return all(vs) if isinstance(n.op, ast.And) else any(vs)
+        return None
+    r = val(e)
+    return r if isinstance(r, bool) else None
 
 
 # ----------------------------------------------------------------------------
@@ -376,3 +467,9 @@ def run(ctx):
     r1_2(ctx)
     r1_3(ctx)
     r1_4(ctx)
+    # shared necessary conditions decided by sibling modules (reported under this property too)
+    from . import c03, c10
+    c03.r3_1_2(ctx)
+    c03.r3_5(ctx)
+    c10.r10_3(ctx)
+    c10.r10_1(ctx)
